@@ -377,10 +377,15 @@ def scenario(g: CFG, env: Callable[[ast.AST], object]) -> Callable[[Node, Node, 
         if a.kind not in ("test", "match-case") or lab not in ("T", "F"):
             return False
         if a.id not in cache:
-            if a.kind == "match-case":
-                cache[a.id] = eval_pattern(a.ast, env)  # type: ignore[arg-type]
-            else:
-                cache[a.id] = eval_expr(a.ast, env)  # type: ignore[arg-type]
+            try:
+                if a.kind == "match-case":
+                    cache[a.id] = eval_pattern(a.ast, env)  # type: ignore[arg-type]
+                else:
+                    cache[a.id] = eval_expr(a.ast, env)  # type: ignore[arg-type]
+            except UndecidedTruth:
+                cache[a.id] = NOVALUE
+            if isinstance(cache[a.id], NotNoneType):
+                cache[a.id] = NOVALUE
         v = cache[a.id]
         if v is NOVALUE:
             return False
@@ -395,6 +400,37 @@ def both(*preds: Callable[[Node, Node, str], bool]) -> Callable[[Node, Node, str
 
 def normal_only(a: Node, b: Node, lab: str) -> bool:
     return lab in ("exc", "reraise")
+
+
+class UndecidedTruth(Exception):
+    pass
+
+
+class NotNoneType:
+    """Abstract value 'some object that is not None' (e.g. the result of arithmetic): decides `is None` tests only."""
+
+    def _undecided(self, *a):
+        raise UndecidedTruth()
+
+    __bool__ = __eq__ = __ne__ = __lt__ = __le__ = __gt__ = __ge__ = __add__ = __radd__ = __sub__ = __rsub__ = __neg__ = _undecided  # type: ignore[assignment]
+    __hash__ = object.__hash__
+
+    def __repr__(self) -> str:
+        return "<not None>"
+
+
+NOT_NONE = NotNoneType()
+
+
+def never_none(e: ast.AST | None) -> bool:
+    """Syntactically an expression whose value cannot be None."""
+    if isinstance(e, ast.BinOp) and isinstance(e.op, (ast.Add, ast.Sub, ast.Mult, ast.Div, ast.FloorDiv, ast.Mod, ast.Pow)):
+        return True
+    if isinstance(e, (ast.JoinedStr, ast.List, ast.Tuple, ast.Dict, ast.Set, ast.ListComp, ast.SetComp, ast.DictComp, ast.Compare, ast.Lambda)):
+        return True
+    if isinstance(e, ast.Constant):
+        return e.value is not None
+    return False
 
 
 # ====================================================================== v2 tools (refactoring-robust matching)
@@ -675,20 +711,33 @@ class Scenario:
             walrus = [x for x in self.deps.fi.own_nodes() if isinstance(x, ast.NamedExpr) and x.target.id == e.id]
             if not nodes and not walrus:
                 return NOVALUE
-            vals = []
-            for n in nodes:
-                direct = self.base_env(n.ast.value)
-                if direct is not NOVALUE:
-                    vals.append(direct)
-                    continue
-                if isinstance(n.ast.value, (ast.Await, ast.Yield, ast.YieldFrom)):
-                    return NOVALUE
-                vals.append(eval_expr(n.ast.value, self.env))
-            for w in walrus:
-                vals.append(eval_expr(w.value, self.env))
+            guard = (-1, e.id)
+            if guard in self._busy:
+                return NOVALUE  # a definition in terms of itself (`root = root._parent` in a loop): no single value
+            self._busy.add(guard)
+            try:
+                vals = []
+                for n in nodes:
+                    direct = self.base_env(n.ast.value)
+                    if direct is not NOVALUE:
+                        vals.append(direct)
+                        continue
+                    if isinstance(n.ast.value, (ast.Await, ast.Yield, ast.YieldFrom)):
+                        return NOVALUE
+                    try:
+                        got_ = eval_expr(n.ast.value, self.env)
+                    except UndecidedTruth:
+                        got_ = NOVALUE
+                    vals.append(NOT_NONE if got_ is NOVALUE and never_none(n.ast.value) else got_)
+                for w in walrus:
+                    vals.append(eval_expr(w.value, self.env))
+            finally:
+                self._busy.discard(guard)
             if any(v is NOVALUE for v in vals):
                 return NOVALUE
             first = vals[0]
+            if any(v is NOT_NONE for v in vals):
+                return NOT_NONE if all(v is NOT_NONE or (v is not None and not isinstance(v, NotNoneType)) for v in vals) else NOVALUE
             if all((v is first) or (not isinstance(v, Abs) and not isinstance(first, Abs) and type(v) is type(first) and v == first) for v in vals):
                 return first
             if all(bool(v) == bool(first) for v in vals) and all(v is None or isinstance(v, Abs) for v in vals):
@@ -705,16 +754,38 @@ class Scenario:
             self._at = a
             try:
                 self._cache[a.id] = eval_pattern(a.ast, self.env) if a.kind == "match-case" else eval_expr(a.ast, self.env)  # type: ignore[arg-type]
+            except UndecidedTruth:
+                self._cache[a.id] = NOVALUE
             finally:
                 self._at = None
         v = self._cache[a.id]
-        if v is NOVALUE:
+        if v is NOVALUE or isinstance(v, NotNoneType):
+            if isinstance(v, NotNoneType):
+                self._cache[a.id] = NOVALUE
             return False
         return lab != ("T" if v else "F")
 
     def undecided(self) -> list[Node]:
         """Reachable branch points whose outcome the scenario does not determine (both edges were kept)."""
         return [n for n in self.g.nodes if n.id in self.reach and n.kind in ("test", "match-case") and self._cache.get(n.id, NOVALUE) is NOVALUE]
+
+    def reaching_defs(self, node: Node, name: str) -> list[Node] | None:
+        """Definition nodes (plain assignments) of local `name` that can reach `node` in this scenario."""
+        owner = self.deps.owner(name)
+        if owner is not self.deps.fi:
+            return None
+        kinds = {k for k, _ in self.deps.defs(owner, name)}
+        if kinds - {"value"}:
+            return None
+        alldefs = set(self._defnodes.get(name, []))
+        out = []
+        for dn in alldefs:
+            if dn.id not in self.reach or getattr(dn.ast, "_inline_init", False) or dn is node:
+                continue
+            starts = [t for t, lab in dn.succ if lab not in ("exc", "reraise") and not self._known_skip(dn, t, lab)]
+            if self.g.search(starts, lambda x: x is node, skip_node=lambda x, dn=dn: x in alldefs and x is not dn and x is not node, skip_edge=self._known_skip, include_start=True) is not None:
+                out.append(dn)
+        return out
 
     def reaching_values(self, node: Node, name: str) -> list[ast.AST] | None:
         """Defining expressions of local `name` that can reach `node` in this scenario (None when the name has
